@@ -227,6 +227,45 @@ def corpus_cases(prop):
     return out
 
 
+def exhaustive(ck, binary, driver, template, limit, on_result):
+    """All interleavings of one small actor-program template (stateless enumeration: every
+    complete schedule is executed from scratch exactly once).  `template` is a case line with
+    `(sched )` empty and `(rng 0)`; children of a finished schedule differ from it at one
+    position after its forced prefix."""
+    frontier = [[]]
+    done = 0
+    rnd = 0
+    while frontier and done < limit:
+        batch, frontier = frontier[:400], frontier[400:]
+        cases = []
+        for i, pre in enumerate(batch):
+            c = re.sub(r"\(case \S+", "(case x%d_%d" % (rnd, i), template, count=1)
+            c = re.sub(r"\(sched[^)]*\)", "(sched %s)" % " ".join(str(x) for x in pre), c, count=1)
+            cases.append(c)
+        res, _ = run_cases(ck, binary, driver, cases, tag="exh%d" % rnd)
+        for pre, (c, t, m) in zip(batch, res):
+            done += 1
+            on_result(c, t, m)
+            if t is None:
+                continue
+            ch = t.choices()
+            for pos in range(len(pre), len(ch)):
+                for alt in range(ch[pos][0] + 1, ch[pos][1]):
+                    frontier.append([x[0] for x in ch[:pos]] + [alt])
+        rnd += 1
+    return done, len(frontier)
+
+
+EXHAUSTIVE_TEMPLATES = [
+    # one reader, one compaction pass, one vacuum pass over two row-sets (coarser gating)
+    "(case e1 (gate cmd.begin txn.pinned vm.commit.begin vm.committed cp.pinned vac.find vac.unlinked rd.open rd.batch)"
+    " (setup create:t1 ins:t1:1+2 ins:t1:3) (actors (read:t1:4) (compact) (vacuum)) (sched ) (rng 0) (sticky 0) (script ))",
+    # reader vs DROP TABLE vs vacuum
+    "(case e2 (gate cmd.begin txn.pinned vm.commit.begin vm.committed ddl.drop.applied vac.find vac.unlinked rd.open rd.batch)"
+    " (setup create:t1 ins:t1:1+2) (actors (read:t1:4) (drop:t1) (vacuum)) (sched ) (rng 0) (sticky 0) (script ))",
+]
+
+
 # --------------------------------------------------------------------------------------------
 # model-free oracles
 # --------------------------------------------------------------------------------------------
@@ -319,8 +358,6 @@ def run(ck):
     if not lean_and_build(ck, "RlModel.Thm.C08", THEOREMS, "drv_c08", "c08"):
         return ck.finish(level="proof", trusted_base=TRUSTED)
     cases = corpus_cases("C08") + gen_cases(ck, "c08", n)
-    if not ck.quick():
-        cases += gen_cases(ck, "c08", 0, tag="exh", extra_args=["exhaustive"])
     ck.log("running %d schedules" % len(cases))
     res, err = run_cases(ck, "c08", "drv_c08", cases)
     traces = [t for _, t, _ in res if t]
@@ -331,9 +368,11 @@ def run(ck):
         ck.report("harness:no-trace", "the harness produced no trace for %d case(s)" % len(missing),
                   replay={"case": missing[0], "harness_tail": err[1]}, found_input=False)
     nontrivial = set()
-    for c, t, m in res:
+    exh = {}
+
+    def judge(c, t, m):
         if t is None:
-            continue
+            return
         orc["compared"] += 1
         bad = reader_oracle(t)
         if bad:
@@ -352,6 +391,13 @@ def run(ck):
                       replay={"case": c, "diff": d, "trace": t.line}, found_input=False)
         if nontrivial_overlap(t):
             nontrivial.add(t.driver_line().split("(steps", 1)[1][:4000])
+    for c, t, m in res:
+        judge(c, t, m)
+    if not ck.quick():
+        for k, tmpl in enumerate(EXHAUSTIVE_TEMPLATES):
+            n_done, n_left = exhaustive(ck, "c08", "drv_c08", tmpl, 2500, judge)
+            exh["template%d" % k] = {"schedules": n_done, "unexplored_frontier": n_left}
+            ck.log("exhaustive template %d: %d schedules, frontier left %d" % (k, n_done, n_left))
     ck.coverage.update({
         "evaluations": len(traces),
         "distinct_nontrivial": len(nontrivial),
@@ -360,6 +406,7 @@ def run(ck):
         "model_vs_impl": cnt, "impl_vs_oracle": orc,
         "model_vs_oracle": {"compared": 0, "disagree": 0, "note": "the oracle is an ungated scan of the implementation; the model's reader result is compared with the implementation's in model_vs_impl"},
         "distribution": summarize_distribution(traces),
+        "exhaustive": exh,
     })
     return ck.finish(level="proof", trusted_base=TRUSTED)
 
